@@ -63,9 +63,11 @@ def split_ticks(events):
     return pre, ticks
 
 
-def check(config, events, live=None, nticks=None):
+def check(config, events, live=None, nticks=None, identity=True):
     """-> (violations [(prop, rule, disc, detail)], stats dict).
-    live: {ruleset name: [set(cgroup rel) per tick]} for ruleset-cgroup rulesets."""
+    live: {ruleset name: [set(cgroup rel) per tick]} for ruleset-cgroup rulesets.
+    identity=False: the object-identity clauses of C11 are not evaluated (and cannot end the judging of an instance), so that the
+    pause / resume clauses of C05 / C06 are still judged per matching cgroup when a build swaps the objects behind its back."""
     V = []
     stats = {"chain_starts": 0, "no_fire_ticks": 0, "resumes": 0, "stops": 0, "pause_blocked": 0,
              "async": 0, "det_runs": 0, "act_runs": 0, "inst_created": 0, "inst_dropped": 0,
@@ -160,7 +162,7 @@ def check(config, events, live=None, nticks=None):
                     bad(P, "detector-once", "", "tick %d ruleset %s cg %s: detectors run %s, configured %s" % (ti, r.name, cg, got, sorted(r.det_ids)), st)
                     continue
                 # ---- instance identity (C11)
-                if cg is not None:
+                if cg is not None and identity:
                     insts = {e["id"]: e["inst"] for e in mine}
                     if any(i in template for i in insts.values()):
                         bad("C11", "template-ran", "", "tick %d ruleset %s cg %s: template instance executed run()" % (ti, r.name, cg), st)
